@@ -199,7 +199,7 @@ def impl_hist(case):
 
 def job(j):
     tag, comp, cases = j
-    return tag, core.eval_cases(comp, cases, impl_hist)
+    return tag, core.eval_cases(comp, cases, impl_hist, repeat=30)
 
 
 def random_history(rng):
